@@ -23,6 +23,7 @@ EXPLANATION = (
     "`sent` attribute; table type and insertion site; guard facts at the two _connect() call sites; structure of "
     "the connect retry closures; dominance order inside close(); call graph of sendString."
     ' Also: the connect loop goes on only while a request is waiting, and the back-off Deferred kept as the pending attempt always gets its callback (R5, finding F43).'
+    " With a live connection an accepted request is always written: beyond the acceptance tests only the connection test controls the write."
 )
 SHARED = [('C06', ['R1'], 'an id still in the table is never stored again: a re-used key keeps the old queue position and would be re-sent ahead of requests issued before it'), ('C06', ['R5'], 'a cancelled request is never re-sent: the canceller drops an unwritten entry and the loss handler drops cancelled ones')]
 ASSUMPTIONS = ["OrderedDict iterates in insertion order", "Twisted calls connectionLost once per connection"]
